@@ -48,7 +48,10 @@ KINDS = {
     "subB": ("sub", "mem", 320), "extB": ("main", "other", 400), "dstB": ("main", "dest", 288),
     "edge": ("main", "mem", 256), "small": ("main", "mem", 8), "scalar": ("main", "mem", 8),
     "zero": ("main", "mem", 0), "extS": ("main", "other", 16), "dstS": ("main", "dest", 16),
+    # same file NAME as the destination data file, DIFFERENT directory (loaded from A/m.onnx, saved as B/m.onnx)
+    "namB": ("main", "other", 336), "namS": ("main", "other", 24),
 }
+SAME_NAME = {"namB", "namS"}
 HDR = 16
 # dtype menu: (ir dtype name, numpy dtype factory, bytes per element as a fraction num/den)
 _DT = [
@@ -246,6 +249,9 @@ def build(case, root, rng):
     vals, origs, obytes = [], [], []
     other = bytearray(rng.randbytes(HDR))
     dest = bytearray(rng.randbytes(HDR))
+    twin = bytearray(rng.randbytes(HDR))      # <root>/src/<data file name>: same name, other directory
+    twin_dir = os.path.join(root, "src")
+    twin_rel = os.path.join("src", os.path.basename(dname))
     for i, kind in enumerate(inits, 1):
         g, back, n = KINDS[kind]
         name = f"t{i}_{kind}"
@@ -268,9 +274,13 @@ def build(case, root, rng):
         elif back == "mem":
             t = tmp
         else:
-            buf, loc = (other, "pre.bin") if back == "other" else (dest, os.path.basename(dname))
-            t = ir.ExternalTensor(loc, len(buf), n, dtype, shape=ir.Shape(list(arr.shape)), name=name,
-                                  base_dir=(root if back == "other" else mdir))
+            if kind in SAME_NAME:
+                buf, loc, bdir = twin, os.path.basename(dname), twin_dir
+            elif back == "other":
+                buf, loc, bdir = other, "pre.bin", root
+            else:
+                buf, loc, bdir = dest, os.path.basename(dname), mdir
+            t = ir.ExternalTensor(loc, len(buf), n, dtype, shape=ir.Shape(list(arr.shape)), name=name, base_dir=bdir)
             buf.extend(raw)
         v.const_value = t
         vals.append(v)
@@ -278,6 +288,9 @@ def build(case, root, rng):
         obytes.append(None if t is None else raw)
     with open(os.path.join(root, "pre.bin"), "wb") as f:
         f.write(bytes(other))
+    os.makedirs(twin_dir, exist_ok=True)
+    with open(os.path.join(root, twin_rel), "wb") as f:
+        f.write(bytes(twin))
     old_model = b"OLD-MODEL-" + rng.randbytes(20)
     if case["stale"]:
         with open(os.path.join(root, dname), "wb") as f:
@@ -320,7 +333,7 @@ def build(case, root, rng):
                      opset_imports={"": 18}, name="g")
     model = ir.Model(graph, ir_version=9, producer_name="verif-c20")
     return {"model": model, "vals": vals, "origs": origs, "obytes": obytes, "style": style, "mname": mname, "dname": dname,
-            "old_model": old_model, "dest0": bytes(dest), "roles": {mname: "model", dname: "data", "pre.bin": "other"}}
+            "old_model": old_model, "dest0": bytes(dest), "roles": {mname: "model", dname: "data", "pre.bin": "other", twin_rel: "other"}}
 
 
 # ------------------------------------------------------------------ projection
@@ -803,7 +816,7 @@ def run(ctx: core.Ctx):
     ctx.set("fault_points_by_call", {" ".join(k): v for k, v in sorted(faults_fired.items())})
     ctx.set("exhaustive", True)
     ctx.set("rule", "cases = final states of ExternalSave.tla with the listed deviations on: every multiset of <= MaxInits initializers "
-                    "over the 17-kind table (quick: 3, the third from a 6-kind menu; thorough: 4, plus 5 with the third and later from the 6-kind menu) x verbose x pre-existing files x every fault point k of the "
+                    "over the 19-kind table (quick: 3, the third from a 7-kind menu; thorough: 4, plus 5 with the third and later from the 7-kind menu) x verbose x pre-existing files x every fault point k of the "
                     "file-system call sequence x {clean, short write}; all are replayed. non-trivial = the injected fault really fired "
                     "at call k, or the model was refused, or the save succeeded with at least one tensor written to the data file; "
                     "distinct by (model, verbose, pre-existing, k, mode)")
